@@ -100,6 +100,19 @@ fn gen(g: &mut G) -> Plan {
         _ => Some(*g.pick(&[10_000u64, 120_000])),
     };
     let dns_ms = *g.pick(&[0u64, 0, 0, 50, 150, 300, 500]);
+    let mut addrs = addrs;
+    let mut t_ms = t_ms;
+    let mut ct_ms = ct_ms;
+    if addrs.len() >= 2 && g.chance(1, 6) {
+        // every address unresponsive and a deadline that strikes while several attempts are pending:
+        // all attempts expire at the same instant as the caller's own wait
+        for a in addrs.iter_mut() {
+            a.beh = if g.chance(1, 3) { ConnectBehaviour::Accept { latency_ns: 3_600_000 * NS_PER_MS } } else { ConnectBehaviour::Blackhole };
+        }
+        ct_ms = *g.pick(&[30_000u64, 5_000]);
+        t_ms = Some((addrs.len() as u64 - 1) * 200 + *g.pick(&[30u64, 50, 100, 150, 199, 200, 250]));
+        g.probe("all-unresponsive-with-deadline");
+    }
     Plan { addrs, ct_ms, t_ms, resolvable: !g.chance(1, 25), dns_ms }
 }
 
